@@ -25,8 +25,11 @@ def run(v, tier, replay):
         lib.tlc_must_pass(rs, cfg); v.add_tlc(cfg + " (session accept loop: NoCrash; behaviours emitted)", rs)
         for m in re.finditer(r'^<<"SESS", "(.*)">>$', rs.out, re.M):
             b = json.loads(m.group(1).replace('\\"', '"'))
-            if b not in opens:
+            same = [o for o in opens if o["seq"] == b["seq"] and o["pre"] == b["pre"]]
+            if not same:
                 opens.append(b)
+            elif same[0]["phase"] != b["phase"]:
+                same[0]["phase"] = "any"     # the model allows more than one phase (how a garbled user name is read)
     rs = lib.tlc("HopSession", "HopSession_bad.cfg", timeout=120)
     v.add_tlc("HopSession_bad.cfg (second execution tube identified by its type byte only: must violate NoCrash)", rs)
     if rs.kind != "invariant":
